@@ -13,3 +13,13 @@ for f in sorted(glob.glob('/verif/seeded/*/meta.json')):
 print('| change | what it does | confirmed | caught by (tier: signature) |')
 print('|---|---|---|---|')
 print('\n'.join(rows))
+
+# --embed: rewrite the table between the seeded-table markers of DESIGN.md
+import sys
+if '--embed' in sys.argv:
+    import io, contextlib, re as _re
+    p = '/verif/DESIGN.md'
+    s = open(p).read()
+    t = '| change | what it does | confirmed | caught by (tier: signature) |\n|---|---|---|---|\n' + '\n'.join(rows) + '\n'
+    s = _re.sub(r'<!-- seeded-table:begin -->.*<!-- seeded-table:end -->', lambda m: '<!-- seeded-table:begin -->\n' + t + '<!-- seeded-table:end -->', s, flags=_re.S)
+    open(p, 'w').write(s)
